@@ -156,10 +156,17 @@ Definition py_binop (la ra : bool) (o : binop) (a b : pyval) : res pyval :=
 (* node.attributes.get((ns, local)): TagAttributes._etree_key sends a namespace equal to the element's in-scope
    default namespace to the plain key *)
 Definition delb_attr (p : payload) (ns local : str) : option str :=
-  (* ... unless the store has an entry {ns}local (fix bde0777) *)
-  let plain := null ns || (match in_scope_default p with Some d => str_eqb d ns | None => false end
-                           && match get_attr ns local (payload_attrs p) with Some _ => false | None => true end) in
-  get_attr (if plain then [] else ns) local (payload_attrs p).
+  let attrs := payload_attrs p in
+  let has n := match get_attr n local attrs with Some _ => true | None => false end in
+  let key :=
+    match in_scope_default p with
+    | Some d =>
+        if negb (null ns) then (if negb (str_eqb d ns) || has ns then ns else [])      (* ... unless {ns}local is in the store (bde0777) *)
+        (* no namespace and the default namespace address the same attribute (badd57c) *)
+        else if negb (null d) && negb (has []) && has d then d else []
+    | None => ns
+    end in
+  get_attr key local attrs.
 Definition attr_ns (m : nsmap) (p : option str) : str :=           (* context.namespaces.get(prefix, "") *)
   match p with Some q => opt_default [] (ns_get m q) | None => [] end.
 
